@@ -42,6 +42,7 @@ func (m c10Msg) build() *fbb.Message {
 		if m.Tag%6 == 0 {
 			msg.SetBody("")
 		}
+		msg.AddFile(fbb.NewFile("z.bin", []byte("zz"))) // (header values "2 z.bin", "0 empty.txt", "1x data.txt": not in sorted order)
 		msg.AddFile(fbb.NewFile("empty.txt", nil))
 		msg.AddFile(fbb.NewFile("data.txt", []byte(fmt.Sprintf("payload %d", m.Tag))))
 	}
